@@ -211,6 +211,11 @@ pub fn encode_apng_with(rng: &mut Rng, img: &HImg, extra_frames: usize, default_
     let mut actl = (total as u32).to_be_bytes().to_vec();
     actl.extend_from_slice(&(rng.below(3) as u32).to_be_bytes());
     write_chunk(&mut out, b"acTL", &actl);
+    // colour-space chunks belong in front of PLTE
+    let early = |n: &[u8; 4]| matches!(n, b"iCCP" | b"sRGB" | b"gAMA" | b"cHRM" | b"sBIT");
+    for (n, d) in pre_idat.iter().filter(|c| early(&c.0)) {
+        write_chunk(&mut out, n, d);
+    }
     if img.ct == 3 {
         write_chunk(&mut out, b"PLTE", &img.plte_bytes());
     }
@@ -218,9 +223,9 @@ pub fn encode_apng_with(rng: &mut Rng, img: &HImg, extra_frames: usize, default_
         write_chunk(&mut out, b"tRNS", &t);
     }
     // ancillary chunks may also sit between the default image's fcTL and its IDAT (legal, unusual)
-    let late: Vec<bool> = pre_idat.iter().map(|_| default_in_anim && rng.chance(1, 3)).collect();
+    let late: Vec<bool> = pre_idat.iter().map(|c| !early(&c.0) && default_in_anim && rng.chance(1, 3)).collect();
     for ((n, d), l) in pre_idat.iter().zip(&late) {
-        if !*l { write_chunk(&mut out, n, d); }
+        if !*l && !early(n) { write_chunk(&mut out, n, d); }
     }
     let mut seq = 0u32;
     let fctl = |seq: u32, w: u32, h: u32, x: u32, y: u32, rng: &mut Rng| -> Vec<u8> {
